@@ -830,7 +830,64 @@ func genLeak(ctx *core.Ctx) {
 	}
 }
 
+// strings for the byte-level model of the encoders: every escape class of encoding/json and yaml.v3
+var byteAtoms = []string{"a", "Z", "CANARY", "0", " ", "\"", "\\", "/", "\n", "\r", "\t", "\b", "\f", "\x00", "\x01", "\x1f", "\x7f", "<", ">", "&", "'",
+	"\u2028", "\u2029", "\u0085", "\u00a0", "é", "世", "😀", "\ufeff", ":", "#", "-", "{", "[", ",", "\u00ad", "\ufffd", "u", "n", "\\u003c"}
+
+func randByteString(r *rand.Rand) string {
+	var b strings.Builder
+	for i := 0; i < r.Intn(6); i++ {
+		b.WriteString(byteAtoms[r.Intn(len(byteAtoms))])
+	}
+	return b.String()
+}
+
+func randByteTree(r *rand.Rand, depth int) any {
+	switch k := r.Intn(10); {
+	case k < 4 || depth == 0:
+		return []any{randByteString(r), randByteString(r), r.Intn(2000) - 1000, true, false, nil}[r.Intn(6)]
+	case k < 6:
+		l := make([]any, r.Intn(4))
+		for i := range l {
+			l[i] = randByteTree(r, depth-1)
+		}
+		return l
+	default:
+		m := tree{}
+		for i := 0; i < r.Intn(4); i++ {
+			m[randByteString(r)] = randByteTree(r, depth-1)
+		}
+		return m
+	}
+}
+
+func genBytes(ctx *core.Ctx) {
+	type bytesArgs struct {
+		V json.RawMessage `json:"v"`
+	}
+	// exhaustive: every atom alone, as a value and as a key, at two depths; every pair of atoms
+	for _, a := range byteAtoms {
+		for _, v := range []any{a, tree{a: a}, []any{a, tree{"k": []any{a}}}, tree{"o": tree{a: tree{}, "z": []any{}}}} {
+			ctx.Count("jsonBytes-exh")
+			ctx.Add("c20.jsonBytes", bytesArgs{V: enc(v)})
+		}
+		for _, b := range byteAtoms {
+			ctx.Count("jsonBytes-exh-pairs")
+			ctx.Add("c20.jsonBytes", bytesArgs{V: enc(tree{"k": a + b})})
+		}
+	}
+	for _, v := range []any{nil, true, false, 0, -7, 123456789, tree{}, []any{}, []any{nil, 1, "x"}, tree{"a": 1, "b": tree{"c": []any{tree{}, []any{}}}}} {
+		ctx.Count("jsonBytes-exh")
+		ctx.Add("c20.jsonBytes", bytesArgs{V: enc(v)})
+	}
+	for i := 0; i < ctx.Pick(3000, 60000); i++ {
+		ctx.Count("jsonBytes-random")
+		ctx.Add("c20.jsonBytes", bytesArgs{V: enc(randByteTree(ctx.Rng, 3))})
+	}
+}
+
 func runC20(ctx *core.Ctx) {
+	genBytes(ctx)
 	genResolve(ctx)
 	genSetName(ctx)
 	genProcExt(ctx)
